@@ -4,6 +4,7 @@ Loads facts for /repo's current working tree, runs the rule set of the property,
 /verif/evidence/<id>.json, prints VIOLATION / KNOWN-FINDING lines, exits 0/1."""
 import importlib
 import json
+import re
 import os
 import sys
 import time
@@ -58,6 +59,45 @@ def load_known():
     if not os.path.exists(p):
         return []
     return json.load(open(p)).get('findings', [])
+
+
+def sensitivity(pid):
+    """Thorough tier: is the rule set of this property still armed?  Every stored seeded change written against this property
+    (seeded/<id>/patch.diff, a change that breaks the property while the pinned suite passes) is applied to a scratch copy
+    of /repo's current tree outside /repo and /verif, the quick check is run on that copy, and the rules that report it are
+    recorded.  Informational: the verdict about /repo never depends on it (a patch that no longer applies is skipped)."""
+    import glob, shutil, subprocess, tempfile
+    from concurrent.futures import ThreadPoolExecutor
+    seeds = []
+    for mp in sorted(glob.glob(os.path.join(VERIF, 'seeded', '*', 'meta.json'))):
+        try:
+            m = json.load(open(mp))
+        except ValueError:
+            continue
+        if m.get('breaks_property') == pid:
+            seeds.append((m['id'], os.path.join(os.path.dirname(mp), 'patch.diff')))
+
+    def one(item):
+        sid, patch = item
+        tmp = tempfile.mkdtemp(prefix='verif-sens-')
+        try:
+            dst = os.path.join(tmp, 'repo')
+            shutil.copytree(extract.REPO, dst, ignore=shutil.ignore_patterns('target', '.git', 'fuzz', 'book', 'vscode', 'bitcoind-tests'))
+            a = subprocess.run(['git', 'apply', patch], cwd=dst, capture_output=True, text=True)
+            if a.returncode != 0:
+                return sid, 'skipped: patch does not apply to the current tree'
+            env = dict(os.environ, VERIF_REPO=dst)
+            r = subprocess.run([os.path.join(VERIF, 'check'), pid, 'quick'], cwd=VERIF, env=env, capture_output=True, text=True)
+            rules = sorted({l.split()[1] for l in r.stdout.splitlines() if l.startswith('  rule ') and re.search(r'failed=[1-9]', l)})
+            known = {k['key'] for k in load_known() if k.get('status') == 'known' and k['property'] == pid}
+            reported = [l for l in r.stdout.splitlines() if l.startswith('VIOLATION')]
+            return sid, ('reported by ' + ', '.join(rules)) if reported else 'NOT reported'
+        finally:
+            shutil.rmtree(tmp, ignore_errors=True)
+    with ThreadPoolExecutor(4) as ex:
+        res = dict(ex.map(one, seeds))
+    return {'what': 'stored seeded changes against this property applied to a scratch copy of the current tree; quick check run on the copy',
+            'seeds': len(seeds), 'reported': sum(1 for v in res.values() if v.startswith('reported')), 'results': res}
 
 
 def main(argv):
@@ -128,6 +168,8 @@ def main(argv):
         'wall_s': round(wall, 2),
         'violations': len(viol),
     }
+    if tier == 'thorough' and not os.environ.get('VERIF_REPO') and not viol:
+        ev['coverage']['sensitivity'] = sensitivity(pid)
     # development runs against a scratch copy (VERIF_REPO=...) must not overwrite the evidence of /repo
     evdir = os.path.join(VERIF, 'evidence') if not os.environ.get('VERIF_REPO') else os.path.join(VERIF, 'build', 'evidence-scratch')
     os.makedirs(evdir, exist_ok=True)
